@@ -44,7 +44,8 @@ pub fn build_xml(rec: &Value) -> String {
             for (j, d) in details.iter().enumerate() {
                 let amt = dec_opt(&d["amt"]).unwrap();
                 let charge = dec_opt(&d["charge"]).unwrap();
-                s.push_str(&format!("<TxDtls><Refs><AcctSvcrRef>R{}-{}</AcctSvcrRef></Refs><Amt Ccy=\"CHF\">{}</Amt><CdtDbtInd>{}</CdtDbtInd>\n", k + 1, j + 1, two(amt), cd));
+                let dcd = if d["rev"] == true { if cd == "CRDT" { "DBIT" } else { "CRDT" } } else { cd };
+                s.push_str(&format!("<TxDtls><Refs><AcctSvcrRef>R{}-{}</AcctSvcrRef></Refs><Amt Ccy=\"CHF\">{}</Amt><CdtDbtInd>{}</CdtDbtInd>\n", k + 1, j + 1, two(amt), dcd));
                 if !charge.is_zero() {
                     s.push_str(&format!("<AmtDtls><InstdAmt><Amt Ccy=\"CHF\">{}</Amt></InstdAmt><TxAmt><Amt Ccy=\"CHF\">{}</Amt></TxAmt></AmtDtls>\n", two(amt - charge), two(amt - charge)));
                     s.push_str(&format!("<Chrgs><TtlChrgsAndTaxAmt Ccy=\"CHF\">{}</TtlChrgsAndTaxAmt><Rcrd><Amt Ccy=\"CHF\">{}</Amt><CdtDbtInd>DBIT</CdtDbtInd><ChrgInclInd>true</ChrgInclInd></Rcrd></Chrgs>\n", two(charge), two(charge)));
